@@ -146,6 +146,13 @@ func RunChild(argv []string, env []string, logFile string, watchdog time.Duratio
 	secs := int(watchdog.Seconds())
 	full := append([]string{"-s", "QUIT", "-k", "10", strconv.Itoa(secs)}, argv...)
 	cmd := exec.Command("timeout", full...)
+	// hard address-space cap for ordinary children (not for race-detector builds, whose shadow memory needs
+	// terabytes of address space): a run-away analysis dies quickly with "out of memory" instead of taking the
+	// machine down. VERIF_CHILD_AS_KB=0 disables it.
+	if lim := childASLimitKB(); lim > 0 && !strings.Contains(argv[0], "race") {
+		sh := fmt.Sprintf("ulimit -v %d; exec timeout -s QUIT -k 10 %d \"$@\"", lim, secs)
+		cmd = exec.Command("sh", append([]string{"-c", sh, "sh"}, argv...)...)
+	}
 	cmd.Stdout = lf
 	cmd.Stderr = lf
 	// soft memory limit for analyzer children: makes the collector work harder instead of letting one child take the
@@ -165,11 +172,21 @@ func RunChild(argv []string, env []string, logFile string, watchdog time.Duratio
 		switch {
 		case res.ExitCode == 124 || res.ExitCode == 137 || strings.Contains(s, "SIGQUIT: quit"):
 			res.Status = "watchdog"
+		case strings.Contains(s, "fatal error: runtime: out of memory") || strings.Contains(s, "cannot allocate memory"):
+			res.Status = "oom"
 		case strings.Contains(s, "panic:") || strings.Contains(s, "fatal error:") || strings.Contains(s, "goroutine 1 ["):
 			res.Status = "panic"
 		}
 	}
 	return res
+}
+
+func childASLimitKB() int64 {
+	if v := os.Getenv("VERIF_CHILD_AS_KB"); v != "" {
+		n, _ := strconv.ParseInt(v, 10, 64)
+		return n
+	}
+	return 20 * 1024 * 1024 // 20 GiB
 }
 
 // Evidence is the evidence file content.
